@@ -229,32 +229,32 @@ Definition lv_reg_phase (i : lv_in) (n : nat) : nat * res :=
            end
   end.
 
-Definition liveness (i : lv_in) : nat * res :=
-  match l_registered i with
-  | Some (CTrue, _) => (O, ROk)
-  | _ =>
-      match l_launched i with
-      | None => (O, RRequeue)
-      | Some (ls, lt) =>
-          if is_true ls then lv_reg_phase i O
-          else
-            let left := launch_timeout - (l_now i - lt) in
-            if 0 <? left then (O, RAfter left)
-            else match nth_pool i O with
-                 | HConflict => (O, RRequeue)
-                 | HErr => (O, RErr)
-                 | HProceed =>
-                     match nth_del i O with
-                     | AOk => lv_reg_phase i 1%nat
-                     | ANotFound => (1%nat, ROk)
-                     | _ => (1%nat, RErr)
-                     end
-                 end
-      end
-  end.
-
 Definition registered_true (i : lv_in) : bool :=
   match l_registered i with Some (CTrue, _) => true | _ => false end.
+
+(* the launch-timeout part, followed by the registration part *)
+Definition lv_launch_phase (i : lv_in) : nat * res :=
+  match l_launched i with
+  | None => (O, RRequeue)
+  | Some (ls, lt) =>
+      if is_true ls then lv_reg_phase i O
+      else
+        let left := launch_timeout - (l_now i - lt) in
+        if 0 <? left then (O, RAfter left)
+        else match nth_pool i O with
+             | HConflict => (O, RRequeue)
+             | HErr => (O, RErr)
+             | HProceed =>
+                 match nth_del i O with
+                 | AOk => lv_reg_phase i 1%nat
+                 | ANotFound => (1%nat, ROk)
+                 | _ => (1%nat, RErr)
+                 end
+             end
+  end.
+
+Definition liveness (i : lv_in) : nat * res :=
+  if registered_true i then (O, ROk) else lv_launch_phase i.
 
 Definition launch_timed_out (i : lv_in) : bool :=
   match l_launched i with
